@@ -1,11 +1,92 @@
-/- Line-protocol driver for C12 (stub until the property's models exist). -/
-import PyIpmi.Base.Proto
-open PyIpmi.Proto
+/-
+  Line-protocol driver for C12: the reference SEL device (Spec/SelDevice.lean) and the model of
+  the SEL retrieval code (Model/SelXfer.lean) with the generated constants.
 
-def handleC12 (line : String) : String :=
-  match tokens line with
-  | ["ping"] => "pong"
+    dev <limit> <whole 0|1> <cur> <valid 0|1> <evs> <entry hex>*    set the device (kept as initial)  -> ok
+         evs ::= - | slot,slot,…     slot ::= n | c | d | a<hex>
+    x <cmd> <hex>                      one request to the current device   -> <hex>
+    state                              current device                      -> <state>
+    run entries                        get_sel_entries          outcome  ok <hex>,<hex>,… | -
+    run get <rid> <res>                get_sel_entry                     ok <hex> <next>
+    run gac <rid> <fuel>               get_and_clear_sel_entry           ok <hex>
+         each run is on the INITIAL device                      -> <outcome> | <trace> | <state>
+    state ::= log=<hex,…> deleted=<hex:res,…> cur=<n> valid=<0|1> evs=<n left>
+    cfg                                generated constants
+-/
+import PyIpmi.Base.Proto
+import PyIpmi.Model.SelXfer
+import PyIpmi.Spec.SelDevice
+import PyIpmi.Gen.Loops10
+open PyIpmi PyIpmi.Proto PyIpmi.FruXfer PyIpmi.SelXfer PyIpmi.Spec.Sel
+
+structure St where
+  init : SelDev
+  cur : SelDev
+
+def parseSlot (s : String) : Option (Option Change) :=
+  if s == "n" then some none
+  else if s == "c" then some (some .cancel)
+  else if s == "d" then some (some .delFirst)
+  else if s.startsWith "a" then (ofHex (s.drop 1).toString).map fun e => some (.add e)
+  else none
+
+def parseEvs (s : String) : Option (List (Option Change)) :=
+  if s == "-" then some [] else (s.splitOn ",").mapM parseSlot
+
+def hexList (l : List (List Nat)) : String :=
+  if l.isEmpty then "-" else ",".intercalate (l.map toHex)
+
+def showState (d : SelDev) : String :=
+  let del := if d.deleted.isEmpty then "-" else
+    ",".intercalate (d.deleted.map fun (e, r) => s!"{toHex e}:{r}")
+  s!"log={hexList d.log} deleted={del} cur={d.cur} valid={if d.valid then 1 else 0} evs={d.evs.length}"
+
+def showTrace (t : List Xchg) : String :=
+  if t.isEmpty then "-" else
+    ",".intercalate (t.map fun x => s!"{x.req.cmd}:{toHex x.req.payload}>{toHex x.rsp}")
+
+def finish {α} (r : Res SelDev α) (f : α → String) : String :=
+  let o := match r.out with
+    | .ok a => "ok " ++ f a
+    | e => e.tag
+  s!"{o} | {showTrace r.w.trace} | {showState r.w.dev}"
+
+def cfg : PyIpmi.SelXfer.Cfg := PyIpmi.Gen.Loops10.selCfg
+
+def runOp (d : SelDev) (op : List String) : String :=
+  let w : World SelDev := ⟨d, []⟩
+  match op with
+  | ["entries"] => finish (selEntries cfg respond w) hexList
+  | ["get", rid, res] =>
+    match rid.toNat?, res.toNat? with
+    | some rid, some res => finish (getSelEntry cfg respond w rid res) fun (e, n) => s!"{toHex e} {n}"
+    | _, _ => "bad-op"
+  | ["gac", rid, fuel] =>
+    match rid.toNat?, fuel.toNat? with
+    | some rid, some fuel => finish (getAndClear cfg respond fuel w rid) toHex
+    | _, _ => "bad-op"
   | _ => "bad-op"
 
+def handle (s : St) (line : String) : St × String :=
+  match tokens line with
+  | ["ping"] => (s, "pong")
+  | ["cfg"] => (s, s!"{cfg.entire} {cfg.full} {cfg.recLen} {cfg.step} {cfg.ccShrink} {cfg.ccCancel} {cfg.first} {cfg.last}")
+  | "dev" :: limit :: whole :: cur :: valid :: evs :: entries =>
+    match limit.toNat?, whole.toNat?, cur.toNat?, valid.toNat?, parseEvs evs, entries.mapM ofHex with
+    | some l, some wh, some c, some v, some ev, some es =>
+      let d : SelDev := ⟨es, l, wh != 0, c, v != 0, ev, []⟩
+      (⟨d, d⟩, "ok")
+    | _, _, _, _, _, _ => (s, "bad-op")
+  | ["x", cmd, h] =>
+    match cmd.toNat?, ofHex h with
+    | some c, some p =>
+      let r := respond s.cur c p
+      ({ s with cur := r.1 }, toHex r.2)
+    | _, _ => (s, "bad-op")
+  | ["state"] => (s, showState s.cur)
+  | "run" :: op => (s, runOp s.init op)
+  | _ => (s, "bad-op")
+
 def main : IO Unit := do
-  loop (← IO.getStdin) (← IO.getStdout) handleC12
+  let d : SelDev := ⟨[], 0, false, 0, false, [], []⟩
+  loopS (← IO.getStdin) (← IO.getStdout) handle ⟨d, d⟩
